@@ -739,8 +739,36 @@ def otherItemPool : List Toks :=
    ["pub", "union", "U", "<", "T", ">", "{", "a", ":", "T", "}"], ["unsafe", "fn", "f", "(", ")", "{", "}"],
    ["m", "!", "(", ")", ";"], ["trait", "Tr", "=", "Clone", ";"]]
 
+def Item.attrs : Item → List Attr
+  | .struct_ s => s.attrs
+  | .enum_ e => e.attrs
+  | .impl_ i => i.attrs
+  | .other _ => []
+
+def Item.withAttrs (attrs : List Attr) : Item → Item
+  | .struct_ s => .struct_ { s with attrs }
+  | .enum_ e => .enum_ { e with attrs }
+  | .impl_ i => .impl_ { i with attrs }
+  | .other ts => .other ts
+
 /-- family `other`: the attribute macro on an item it does not support; `#[derive(Ex)]` on a union -/
 def genOtherCase (fam : String) (seed idx : Nat) : Case := runGen seed idx do
+  -- a struct / enum (helper attributes and all) under a list that names no trait: `#[derive_ex()]`, `#[derive_ex(dump)]`,
+  -- `#[derive_ex(bound(T))]` — nothing is generated, nothing is recognised, the item comes back as it is
+  if ← chance 1 4 then
+    let base := genItemCase { traits := ["Clone", "Debug", "Default", "Ord", "PartialEq", "Hash"], cmpAttrPct := 45, debugAttrPct := 40,
+                              defaultAttrPct := 40, boundPct := 20, foreignPct := 50, validBias := false } fam seed (idx + 1)
+    let dump ← chance 1 3
+    let bound ← pickW [(3, (none : Option (List BoundArg))), (1, some []), (1, some [.ty tyT, .dots])]
+    let rootAttrs := base.item.attrs.filter fun | .deriveEx _ => false | _ => true
+    let useDerive ← chance 1 3
+    let args : Args := { items := [], bound, dump }
+    if useDerive then
+      return { id := s!"{fam}/{seed}/{idx}", tags := ["entry=derive", "empty-list"], entry := .derive,
+               item := base.item.withAttrs (.deriveEx args :: rootAttrs) }
+    else
+      return { id := s!"{fam}/{seed}/{idx}", tags := ["entry=attr", "empty-list"], entry := .attr args,
+               item := base.item.withAttrs rootAttrs }
   let n ← below 3
   let traits ← listOf n (pick ["Clone", "Debug", "Add", "Ord", "Default", "Foo", "Deref"])
   let dump ← chance 1 6
@@ -870,18 +898,6 @@ def genItemCaseR (cfg : GCfg) (fam : String) (seed idx : Nat) : Case :=
   if idx % 25 == 7 then rawParamVariant 0 c else if idx % 25 == 19 then rawParamVariant 1 c else c
 
 /-! ## Metamorphic groups (relations between *real* expansions; no model needed to judge them) -/
-
-def Item.attrs : Item → List Attr
-  | .struct_ s => s.attrs
-  | .enum_ e => e.attrs
-  | .impl_ i => i.attrs
-  | .other _ => []
-
-def Item.withAttrs (attrs : List Attr) : Item → Item
-  | .struct_ s => .struct_ { s with attrs }
-  | .enum_ e => .enum_ { e with attrs }
-  | .impl_ i => .impl_ { i with attrs }
-  | .other ts => .other ts
 
 /-- every attribute of the item, on the type, its variants and their fields -/
 def Item.allAttrs : Item → List Attr
